@@ -499,6 +499,15 @@ theorem helloGw_sticky (fuel : Nat) (X : St) (n : Nat) (nd : Node) (h : X.oof = 
   repeat' split
   all_goals sticky is h
 
+theorem requestApp_mono1 (fuel : Nat) (st : St) (n : Nat) (server : Ip) (svc : Nat) (reply : Bool) :
+    (requestApp fuel st n server svc reply).1.oof = true ∨
+      requestApp (fuel + 1) st n server svc reply = requestApp fuel st n server svc reply := by
+  have ih := mAt fuel
+  have is := sAt fuel
+  unfold requestApp
+  simp only
+  repeat' (mono_step ih is fuel)
+
 theorem enableIface_mono1 (fuel : Nat) (st : St) (n i : Nat) :
     (enableIface fuel st n i).oof = true ∨ enableIface (fuel + 1) st n i = enableIface fuel st n i := by
   rw [enableIface_eq, enableIface_eq]
@@ -547,6 +556,7 @@ inductive NetOp
   | disable (n i : Nat)
   | power (n : Nat) (on : Bool)
   | arpclear (n : Nat)
+  | app (n : Nat) (server : Ip) (svc : Nat) (reply : Bool)
 
 /-- one operation at nesting budget `fuel`: the new state and the operation's result (`true` where there is none). -/
 def runOp (fuel : Nat) (st : St) : NetOp → St × Bool
@@ -557,6 +567,7 @@ def runOp (fuel : Nat) (st : St) : NetOp → St × Bool
   | .power n true => (powerOn fuel st n, true)
   | .power n false => (powerOff st n, true)
   | .arpclear n => (st.modNode n (fun nd => { nd with arp := [] }), true)
+  | .app n srv svc reply => requestApp fuel st n srv svc reply
 
 theorem runOp_mono1 (fuel : Nat) (st : St) (op : NetOp) :
     (runOp fuel st op).1.oof = true ∨ runOp (fuel + 1) st op = runOp fuel st op := by
@@ -569,6 +580,7 @@ theorem runOp_mono1 (fuel : Nat) (st : St) (op : NetOp) :
     · right; simp only [runOp, h]
   | disable n i => exact Or.inr rfl
   | arpclear n => exact Or.inr rfl
+  | app n srv svc reply => exact requestApp_mono1 fuel st n srv svc reply
   | power n on =>
     cases on
     · exact Or.inr rfl
